@@ -391,27 +391,36 @@ fn c09_recv_into_iovec_wraps_each_fd_once_bounded() {
     core::mem::forget(e);
 }
 
-// ---- recv_data: ONE read of at most `len` bytes into a fresh buffer of exactly `len` bytes (contract used by the
-// server prologues; whether one read suffices for a segmented stream is C08's question, see DESIGN.md)
+// ---- recv_data (used by both request servers for the message body): independent of how the stream is segmented.
+// The kernel model delivers any 1..=remaining bytes per recvmsg while data is pending and 0 at end-of-stream.
+// Obligation (C08): Ok((n, buf)) with n < len only at end-of-stream; buf.len() == len. (bounded: len <= 3)
+static mut K_CALLS: usize = 0;
+static mut K_EOF: bool = false;
+static mut K_DELIVERED: usize = 0;
+unsafe fn stub_raw_recvmsg_chunks(_fd: RawFd, iovecs: &mut [iovec], _in_fds: &mut [RawFd]) -> vmm_sys_util::errno::Result<(usize, usize)> {
+    K_CALLS += 1;
+    let mut total = 0;
+    let mut i = 0;
+    while i < iovecs.len() { total += iovecs[i].iov_len; i += 1; }
+    let eof: bool = kani::any();
+    if eof || total == 0 { K_EOF = true; return Ok((0, 0)); }
+    let n: usize = kani::any();
+    kani::assume(n >= 1 && n <= total);
+    K_DELIVERED += n;
+    Ok((n, 0))
+}
 #[kani::proof]
-#[kani::stub(vmm_sys_util::sock_ctrl_msg::raw_recvmsg, stub_raw_recvmsg_nofd)]
-#[kani::unwind(20)]
-fn c08_recv_data_bounded() {
+#[kani::stub(vmm_sys_util::sock_ctrl_msg::raw_recvmsg, stub_raw_recvmsg_chunks)]
+#[kani::unwind(6)]
+fn c08_recv_data_segmentation_bounded() {
     let mut e = ep();
     let len: usize = kani::any();
-    kani::assume(len <= 16);
+    kani::assume(len >= 1 && len <= 3);
     let r = e.recv_data(len);
     if let Ok((n, buf)) = r {
         assert!(buf.len() == len && n <= len);
-        assert!(unsafe { K_CALLS } == 1);
+        assert!(n == unsafe { K_DELIVERED });
+        assert!(n == len || unsafe { K_EOF });      // a short count only when the stream ended
     }
     core::mem::forget(e);
-}
-static mut K_CALLS: usize = 0;
-unsafe fn stub_raw_recvmsg_nofd(_fd: RawFd, iovecs: &mut [iovec], in_fds: &mut [RawFd]) -> vmm_sys_util::errno::Result<(usize, usize)> {
-    K_CALLS += 1;
-    assert!(in_fds.len() == 0);
-    let bytes: usize = kani::any();
-    kani::assume(iovecs.len() == 1 && bytes <= iovecs[0].iov_len);
-    Ok((bytes, 0))
 }
